@@ -246,7 +246,7 @@ def main(chk):
                 'Stokes, Stokes-space vs angle-space spurious-modulation correction, detphi round trip for DU×roll, polarization table '
                 'before/after rotating every PHI; non-trivial = rotation angle not a multiple of π/2, non-zero spurious (q,u), roll ≠ 0, > 3 events')
     chk.assumptions = TRUSTED
-    chk.lean(['IxpeVerif.Props.C06', 'IxpeVerif.Props.Audit.C06'], GEN)
+    chk.lean(['IxpeVerif.Props.C06', 'IxpeVerif.Props.C06Gen', 'IxpeVerif.Props.Audit.C06'], GEN + ['ana_init', 'ana_energy_mask', 'ana_sum_stokes_parameters', 'ana_w2', 'ana_effective_mu', 'ana_average_energy', 'ana_table_row'])
     n = 100 if chk.tier == 'quick' else 2000
     corr_gen.run(chk, GEN, n=n, tag='C06')
     oracle(chk)
